@@ -252,10 +252,13 @@ func vfNetRun(cfg *vfNetCfg, count func(string)) (obs string, fp string, desc st
 	// convergence: announcements propagate, meshes form, backoffs expire and are swept
 	nt.settle(22)
 	if cfg.Churn != "" {
-		if !nt.churn(cfg.Churn) {
-			return "", "", "", 0, 0, false
+		// a churn is one operation or a ';'-separated sequence; the network settles after each
+		for _, op := range strings.Split(cfg.Churn, ";") {
+			if !nt.churn(op) {
+				return "", "", "", 0, 0, false
+			}
+			nt.settle(24)
 		}
-		nt.settle(24)
 	}
 	if !nt.overlayOK(cfg.Pub) {
 		return "", "", "", 0, 0, false
@@ -410,6 +413,7 @@ func vfC01Configs(thorough bool) []*vfNetCfg {
 	add(2, vfConnectedGraphs(2), vfVectors(2, routers), vfVectors(2, roles), []string{""})
 	if thorough {
 		add(3, vfConnectedGraphs(3), vfVectors(3, routers), vfVectors(3, roles), []string{"", "cancel:0", "resub:1", "relay:2", "sub:2", "conn:0-2", "disc:0-1", "unrelay:1"})
+		add(3, vfConnectedGraphs(3), vfVectors(3, routers), vfVectors(3, []string{"sub", "relay", "pub"}), vfChurnPairs(3, false))
 		g4 := vfConnectedGraphs(4)
 		add(4, g4, [][]string{{"gossip", "gossip", "gossip", "gossip"}, {"gossip", "flood", "gossip", "random"}, {"flood", "gossip", "random", "gossip"}, {"random", "random", "gossip", "flood"}},
 			vfVectors(4, []string{"sub", "relay", "pub"}), []string{""})
@@ -417,9 +421,37 @@ func vfC01Configs(thorough bool) []*vfNetCfg {
 		add(3, vfConnectedGraphs(3), vfVectors(3, routers), vfVectors(3, roles), []string{""})
 		add(3, vfConnectedGraphs(3), [][]string{{"gossip", "gossip", "gossip"}, {"gossip", "flood", "random"}, {"random", "gossip", "flood"}, {"flood", "random", "gossip"}}, vfVectors(3, []string{"sub", "relay", "pub"}),
 			[]string{"cancel:0", "resub:1", "relay:2", "sub:2", "conn:0-2", "disc:0-1", "unrelay:1"})
+		// two-step role churn on one node (subscribe / cancel / relay / unrelay in every order): a node's
+		// announced interest must follow the union of its subscriptions and relays
+		add(3, vfConnectedGraphs(3), [][]string{{"gossip", "gossip", "gossip"}, {"gossip", "flood", "random"}, {"random", "gossip", "flood"}, {"flood", "random", "gossip"}}, vfVectors(3, []string{"sub", "relay", "pub"}),
+			vfChurnPairs(3, true))
 		// the six unlabelled topologies on four nodes: path, star, cycle, paw, diamond, complete
 		g4 := [][][2]int{{{0, 1}, {1, 2}, {2, 3}}, {{0, 1}, {0, 2}, {0, 3}}, {{0, 1}, {1, 2}, {2, 3}, {3, 0}}, {{0, 1}, {1, 2}, {2, 0}, {2, 3}}, {{0, 1}, {1, 2}, {2, 3}, {3, 0}, {0, 2}}, {{0, 1}, {0, 2}, {0, 3}, {1, 2}, {1, 3}, {2, 3}}}
 		add(4, g4, [][]string{{"gossip", "gossip", "gossip", "gossip"}, {"gossip", "flood", "gossip", "random"}}, [][]string{{"sub", "relay", "sub", "pub"}, {"pub", "sub", "relay", "sub"}, {"sub", "sub", "sub", "sub"}, {"relay", "sub", "pub", "sub"}}, []string{""})
+	}
+	return out
+}
+
+// vfChurnPairs lists the two-step role churns over n nodes (both steps on one node if sameNode).
+func vfChurnPairs(n int, sameNode bool) []string {
+	kinds := []string{"sub", "cancel", "relay", "unrelay"}
+	var ops []string
+	for i := 0; i < n; i++ {
+		for _, k := range kinds {
+			ops = append(ops, fmt.Sprintf("%s:%d", k, i))
+		}
+	}
+	var out []string
+	for _, a := range ops {
+		for _, b := range ops {
+			if sameNode && a[strings.Index(a, ":"):] != b[strings.Index(b, ":"):] {
+				continue
+			}
+			if a == b && !strings.HasPrefix(a, "sub:") {
+				continue
+			}
+			out = append(out, a+";"+b)
+		}
 	}
 	return out
 }
